@@ -243,3 +243,27 @@ prop("C08",
                 "data starting/ending with '-', trailing solidus glued to an unquoted value.",
      not_decided=["lexical lemma: output re-tokenises to the same tokens", "doctype and Entity tokens", "encoded output (bytes)"],
      explanation="loop body under a step contract, bounded in attribute count")
+
+
+prop("C12",
+     level="proof",
+     frames=True,
+     level_text="Frame contract over HTMLParser, its 23 phase classes, the three TreeBuilder classes and HTMLSerializer, "
+                "generated from the real AST on every run (spec/frames.py, pyvc/frames.py): every field any participating "
+                "method assigns, deletes or mutates in place is either assigned, on every path through the function each "
+                "public call runs first (_parse+reset, TreeBuilder.reset, the head of serialize), from a value that cannot "
+                "carry an earlier call's state (constant, fresh container, constructor call, parameter), or belongs to an "
+                "object created anew there (phases, tokenizer, stream), or follows a checked write-before-read protocol "
+                "(parser.originalPhase). Because re-initialisation happens at the start of the NEXT call, it does not matter "
+                "how the previous call ended (strict ParseError, exception from the source). Process-wide state: every "
+                "module-level or closure-held mutable written from a function is a memo table whose stored value depends only "
+                "on the parameters its key is computed from; the shared entities trie is not written by the methods the "
+                "tokenizer calls. Plus the reset/charsUntil contracts of the input stream and the serializer's loop frame "
+                "(in_cdata is a local of serialize) proved by pyvc.",
+     level_note="Decided syntactically (write sets and must-assignment over the AST; no solver needed), an over-approximation: a "
+                "harmless new field that is not re-initialised is reported. Trusted: the path resolver of spec/frames.py; "
+                "per-document ownership of tree nodes; writes through aliases are not tracked; C extensions (expat, minidom). "
+                "NOT decided: thread interleavings (beyond: independent parsers share only the memo tables above), a fresh "
+                "interpreter versus a warmed one beyond memo transparency.",
+     not_decided=["thread interleavings", "tree walkers and filters (constructed per call)", "state inside C extensions"],
+     explanation="frame obligations: write set of a call within what the next call re-initialises")
